@@ -5,6 +5,7 @@ package main
 import (
 	"fmt"
 	"go/token"
+	"go/types"
 
 	"golang.org/x/tools/go/ssa"
 )
@@ -40,7 +41,7 @@ func init() {
 			"buildRequest numbers records/inner messages by their index and sets LastOffsetDelta = len-1 (C04.deltas); the partition is chosen once (retries == 0) and the choice is range-checked before indexing (C04.partition-once); the byte/count accounting of add and dropPartition is symmetric (C04.accounting). " +
 			"Shared with C09 because C04 names nil/empty keys and values: the null marker of a byte field is written only under a nil test (C09.null) and the sizing and writing passes of every primitive agree (C09.prep-real). " +
 			"NOT covered: codec output, per-version framing bytes (C09 decides encoder/decoder agreement), broker behaviour.",
-		Rules: []func(*Ctx){c04Offset, c04Aligned, c04Record, c04Deltas, c04PartitionOnce, c04Accounting, c09Null, c09PrepReal},
+		Rules: []func(*Ctx){c04Offset, c04Aligned, c04Record, c04Deltas, c04PartitionOnce, c04Accounting, c04OwnedOutput, c09Null, c09PrepReal},
 	})
 }
 
@@ -293,4 +294,133 @@ func c04Accounting(c *Ctx) {
 			"dropPartition does not undo exactly what add accounted (bytes, count, map entry)", nil)
 	}
 	_ = p
+}
+
+// c04OwnedOutput: what a function hands out must not live in storage it returns to a pool.  The encoders
+// keep a compressed payload between the sizing pass and the writing pass of a request; if compress() returned
+// bytes that belong to a pooled buffer, compressing the next partition would overwrite them and the request
+// would carry one partition's records under another partition's header — with valid CRCs.
+func c04OwnedOutput(c *Ctx) {
+	p := c.P
+	rule := "C04.owned-output"
+	c.Doc(rule, "every function of the package that puts an object into a sync.Pool (directly or by defer): none of its results is that object, a slice or field of it, or the result of a method called on it")
+	c.Floor(rule, 10)
+	isPut := func(cc *ssa.CallCommon) bool {
+		f := cc.StaticCallee()
+		return f != nil && f.String() == "(*sync.Pool).Put" && len(cc.Args) == 2
+	}
+	for _, fn := range p.Fns {
+		if fn.Pkg != p.Sarama {
+			continue
+		}
+		fi := Info(fn)
+		var pooled []ssa.Value
+		var sites []ssa.Instruction
+		fi.Each(func(it Item) {
+			switch x := it.In.(type) {
+			case *ssa.Call:
+				if isPut(&x.Call) {
+					pooled = append(pooled, canon(x.Call.Args[1]))
+					sites = append(sites, x)
+				}
+			case *ssa.Defer:
+				if isPut(&x.Call) {
+					pooled = append(pooled, canon(x.Call.Args[1]))
+					sites = append(sites, x)
+				}
+			}
+		})
+		if len(pooled) == 0 {
+			continue
+		}
+		// values that denote the pooled object: the value itself, the cell it was stored to, type assertions of it
+		same := func(v ssa.Value, obj ssa.Value) bool {
+			for d := 0; d < 6 && v != nil; d++ {
+				v = canon(v)
+				if v == obj {
+					return true
+				}
+				switch x := v.(type) {
+				case *ssa.TypeAssert:
+					v = x.X
+					continue
+				case *ssa.Phi:
+					for _, e := range x.Edges {
+						if canon(e) == obj {
+							return true
+						}
+					}
+				case *ssa.Alloc:
+					// a cell: what was stored into it
+					for _, r := range *x.Referrers() {
+						if st, ok := r.(*ssa.Store); ok && st.Addr == ssa.Value(x) && canon(st.Val) == obj {
+							return true
+						}
+					}
+				}
+				break
+			}
+			return false
+		}
+		var derived func(v ssa.Value, obj ssa.Value, d int) bool
+		derived = func(v ssa.Value, obj ssa.Value, d int) bool {
+			if d > 5 {
+				return false
+			}
+			if same(v, obj) {
+				return true
+			}
+			switch x := strip(v).(type) {
+			case *ssa.Call:
+				// a method of the pooled object (buf.Bytes())
+				if len(x.Call.Args) > 0 && !x.Call.IsInvoke() && x.Call.StaticCallee() != nil && x.Call.StaticCallee().Signature.Recv() != nil {
+					return same(x.Call.Args[0], obj)
+				}
+				if x.Call.IsInvoke() {
+					return same(x.Call.Value, obj)
+				}
+			case *ssa.Slice:
+				return derived(x.X, obj, d+1)
+			case *ssa.UnOp:
+				return derived(x.X, obj, d+1)
+			case *ssa.FieldAddr:
+				return derived(x.X, obj, d+1)
+			case *ssa.Field:
+				return derived(x.X, obj, d+1)
+			case *ssa.Extract:
+				return derived(x.Tuple, obj, d+1)
+			case *ssa.Phi:
+				for _, e := range x.Edges {
+					if derived(e, obj, d+1) {
+						return true
+					}
+				}
+			}
+			return false
+		}
+		for i, obj := range pooled {
+			bad := false
+			var at ssa.Instruction = sites[i]
+			for _, b := range fn.Blocks {
+				r, ok := lastInstr(b).(*ssa.Return)
+				if !ok || IsRecoverBlock(b) {
+					continue
+				}
+				for _, rv := range RetVals(r) {
+					// only results that can share storage: slices, pointers, maps (an error returned by a method of
+					// the pooled object is a value of its own)
+					switch rv.Type().Underlying().(type) {
+					case *types.Slice, *types.Pointer, *types.Map:
+					default:
+						continue
+					}
+					if derived(rv, obj, 0) {
+						bad, at = true, r
+					}
+				}
+			}
+			c.Check(!bad, rule, fn, fmt.Sprintf("pooled-object-%d-not-returned", i+1), at, "no result of the function lives in the object it returns to the pool",
+				"a result of the function is (part of) an object that the function puts back into a sync.Pool: the next user of the pooled object overwrites what the caller still holds (a cached compressed payload is replaced by another partition's)", nil)
+		}
+	}
 }
